@@ -17,6 +17,8 @@ import vlib
 HERE = os.path.dirname(os.path.abspath(__file__))
 sys.path.insert(0, os.path.join(vlib.VERIF, "translators"))
 import state_fields  # noqa: E402
+sys.path.insert(0, HERE)
+import reindex_tie  # noqa: E402
 
 LIBS = "testcel_celeritas testcel_harness testcel_core testcel_geocel celeritas orange geocel corecel".split()
 ORDERS = ["none", "reindex_shuffle", "reindex_status", "reindex_particle_type",
@@ -68,7 +70,7 @@ class Runner:
 
     def args(self, cfg, dump=0):
         return [cfg["problem"], str(cfg["slots"]), cfg["order"], str(cfg["timing"]),
-                str(cfg["checker"]), str(cfg["warmup"]), str(dump)]
+                str(cfg["checker"]), str(cfg["warmup"]), str(dump), str(cfg.get("stream", 0))]
 
     def run(self, cfg, script, dump=0):
         inp = "".join("E %d %d %d\n" % s for s in script)
@@ -113,6 +115,10 @@ def run(ctx):
         "translators/state_fields.py: regex/brace parser of the state structs and initialiser bodies "
         "(unrecognised shapes are emitted as failed shape checks, not skipped)",
         "the shared secondary stack and the atomic track counter are abstracted (host loops are sequential in this build: OpenMP=event)",
+        "re-indexing model coq/C06/Reindex.v: std::sort / std::partition are SPECIFIED (some sorted permutation), std::shuffle with "
+        "mt19937{count} is a position-permutation oracle determined by the count; tied by props/C06/reindex_tie.py "
+        "(exact comparison with the real host functions + regex shape checks of the launch loops / executors / get_action_range)",
+        "the action-range launch (ActionLauncher.device.hh) cannot be executed in this CPU build: only its shape is checked",
     ]
     ctx.assumptions += [
         "same number of track slots in the compared runs (the RNG subsequence is event*slots+slot)",
@@ -207,6 +213,19 @@ def run(ctx):
                        "checker": 0 if problem == "mock" else ck, "warmup": wu}
                 jobs.append(("config", cfg, rand_script(problem, pool, rng.random() < 0.5)))
 
+            # (v): the same events on states owned by OTHER streams (CoreParams with max_streams > 1):
+            # reseeding must make the event independent of the stream id of the state, fresh or used
+            for st in ([1, 1, 2, 5] if quick else [1, 1, 1, 2, 2, 3, 7, 15]):
+                o, tm, ck, wu = rng.choice(ORDERS), rng.randint(0, 1), rng.randint(0, 1), rng.randint(0, 1)
+                if rng.random() < 0.5:
+                    o, tm, wu = "none", 0, 0
+                cfg = {"problem": problem, "slots": slots, "order": o, "timing": tm,
+                       "checker": 0 if problem == "mock" else ck, "warmup": wu, "stream": st}
+                script = rand_script(problem, pool, rng.random() < 0.3)
+                if rng.random() < 0.4:
+                    script = script[-1:]          # fresh state of that stream
+                jobs.append(("stream", cfg, script))
+
         # baselines: EVERY (event, size, abort step) that occurs in some script, alone on a fresh
         # state with the plain configuration (aborted events are compared with a fresh run
         # aborted at the same step, so their killed / errored / unfinished tracks count too)
@@ -264,7 +283,8 @@ def run(ctx):
                     ctx.count("aborted-event-compared")
                 compared += 1
                 nontriv = (pos > 0 or cfg != base_cfg(cfg["problem"], cfg["slots"])) and ntr > 0
-                ctx.case((cfg["problem"], cfg["slots"], e, cfg["order"], cfg["timing"], cfg["checker"], cfg["warmup"], hist), nontrivial=nontriv)
+                ctx.case((cfg["problem"], cfg["slots"], e, cfg["order"], cfg["timing"], cfg["checker"], cfg["warmup"], cfg.get("stream", 0), hist), nontrivial=nontriv)
+                ctx.count("stream:%s" % ("0" if not cfg.get("stream") else "other"))
                 ctx.count("order:%s" % cfg["order"])
                 ctx.count("problem:%s" % cfg["problem"])
                 ctx.count("history-len:%d" % pos)
@@ -292,8 +312,8 @@ def run(ctx):
                     else:
                         d = first_diff(b2["R"], b1["R"])
                         detail = {"stepper_result_index": d[0], "this_run": d[1], "fresh_run": d[2]} if d else None
-                report("replay", "event %d of problem %s (%d slots) is not reproduced bit-exactly (order=%s timing=%d checker=%d warmup=%d, %d earlier events)"
-                       % (e, cfg["problem"], cfg["slots"], cfg["order"], cfg["timing"], cfg["checker"], cfg["warmup"], pos),
+                report("replay", "event %d of problem %s (%d slots) is not reproduced bit-exactly (stream=%d order=%s timing=%d checker=%d warmup=%d, %d earlier events)"
+                       % (e, cfg["problem"], cfg["slots"], cfg.get("stream", 0), cfg["order"], cfg["timing"], cfg["checker"], cfg["warmup"], pos),
                        dict(label, event=e, position=pos, first_difference=detail,
                             fresh_command="printf 'E %d %d %d\\n' | CELER_DISABLE_PARALLEL=1 %s %s" % (
                                 script[pos] + (exe, " ".join(R.args(base_cfg(cfg["problem"], cfg["slots"]), 1))))))
@@ -309,7 +329,9 @@ def run(ctx):
     nviol = 0
     harness_failure = None
     try:
-        nviol = replays()
+        # ---- 2b. re-indexing machinery: model vs the real host functions -------
+        nviol = reindex_tie.run_reindex(ctx)
+        nviol += replays()
     except vlib.BuildError as ex:
         if proofs_ok:
             raise
